@@ -184,6 +184,30 @@ func (p *Package) Clauses() ([]ast.Clause, error) {
 						return nil, err
 					}
 					clause.Premises[i] = ast.NegAtom{Atom: ia}
+				case ast.TemporalAtom:
+					na, err := p.updatedAtom(a.Atom, definedIdentifier, usedPackages)
+					if err != nil {
+						return nil, err
+					}
+					a.Atom = na
+					clause.Premises[i] = a
+				case ast.TemporalLiteral:
+					// The literal under a temporal annotation or operator mentions a predicate like any other.
+					switch lit := a.Literal.(type) {
+					case ast.Atom:
+						na, err := p.updatedAtom(lit, definedIdentifier, usedPackages)
+						if err != nil {
+							return nil, err
+						}
+						a.Literal = na
+					case ast.NegAtom:
+						ia, err := p.updatedAtom(lit.Atom, definedIdentifier, usedPackages)
+						if err != nil {
+							return nil, err
+						}
+						a.Literal = ast.NegAtom{Atom: ia}
+					}
+					clause.Premises[i] = a
 				default:
 					continue
 				}
